@@ -16,6 +16,8 @@ INV_PROP = {'OneProposalPerView': 'C03', 'OneResponsePerView': 'C03', 'OneCommit
             'Answers': 'C12', 'Termination': 'C09', 'ViewBound': 'C09', 'TimersArmed': 'C10',
             'NeverAsks': 'C08', 'View0': 'C08', 'Decides': 'C08', 'TheBlock': 'C08'}
 
+ECHO_INVS = ['OneDecision', 'PreBlockOnce', 'PhaseOrder', 'AmevOff', 'TimerOK', 'Silent', 'HeldTxsBelong', 'PrimaryOK', 'ViewEvidence']
+
 def node_cfg(name, me=1, h=2, maxview=1, amev=False, watch=False, dyn=False, family=('core',), dev=True, weaken=(), invs=None, n=4,
              emit=False, emitlen=0, props=('CommitLock', 'PreCertificate')):
     invs = NODE_INVS if invs is None else invs
@@ -49,6 +51,15 @@ NODE_FAMILIES = {
         node_cfg('junk1', me=1, family=('core', 'junk1')),
         node_cfg('amev', me=1, amev=True),
         node_cfg('next-v0', me=1, maxview=0, family=('core', 'next'), props=('CommitLock', 'PreCertificate', 'ResetClean', 'EarlyUsed')),
+    ],
+    # restarted validators (family "echo": payloads of the previous incarnation come back); the commit-evidence invariants speak
+    # about what THIS incarnation decided and are not meaningful here
+    'echo': [
+        node_cfg('watch-echo', me=2, watch=True, amev=True, maxview=0, family=('core', 'echo'), invs=ECHO_INVS, props=('PreCertificate',)),
+        node_cfg('watch-echo-backup', me=1, watch=True, amev=True, maxview=0, family=('core', 'echo'), invs=ECHO_INVS, props=('PreCertificate',)),
+        node_cfg('echo-v0', me=1, maxview=0, family=('core', 'echo'), invs=ECHO_INVS, props=('PreCertificate',)),
+        node_cfg('echo-primary-v0', me=2, maxview=0, family=('core', 'echo'), invs=ECHO_INVS, props=('PreCertificate',)),
+        node_cfg('echo-amev-v0', me=1, amev=True, maxview=0, family=('core', 'echo'), invs=[i for i in ECHO_INVS if i != 'PhaseOrder'], props=('PreCertificate',)),   # PhaseOrder speaks about this incarnation's own pre-commit
     ],
     'cover': [
         node_cfg('amev-v0s', me=1, amev=True, maxview=0),
@@ -380,7 +391,7 @@ def design(tier, wd, vh=None, names=None, module='MC_Node'):
     elif module == 'MC_Tx':
         items = [('fresh', i) for i in TX_FAMILIES]
     else:
-        items = [('fresh', i) for i in NODE_FAMILIES['quick']] + [('cached', i) for i in NODE_FAMILIES['cached']]
+        items = [('fresh', i) for i in NODE_FAMILIES['quick']] + [('cached', i) for i in NODE_FAMILIES['cached'] + NODE_FAMILIES['echo']]
         if tier != 'quick':
             items += [('cached', i) for i in NODE_FAMILIES['thorough']]
     if names:
